@@ -121,7 +121,7 @@ def make_dict_unstructure_fn(
                 else:
                     # Unbound typevars use late binding.
                     handler = converter.unstructure
-            elif is_generic(t) and not is_bare(t) and not is_annotated(t):
+            elif is_generic(t) and not is_bare(t):
                 t = deep_copy_with(t, mapping, cl)
 
             if handler is None:
@@ -167,7 +167,7 @@ def make_dict_unstructure_fn(
                         t = mapping[t.__name__]
                     else:
                         handler = converter.unstructure
-                elif is_generic(t) and not is_bare(t) and not is_annotated(t):
+                elif is_generic(t) and not is_bare(t):
                     t = deep_copy_with(t, mapping, cl)
 
                 if handler is None:
@@ -335,14 +335,14 @@ def make_dict_structure_fn(
 
             if isinstance(t, TypeVar):
                 t = mapping.get(t.__name__, t)
-            elif is_generic(t) and not is_bare(t) and not is_annotated(t):
+            elif is_generic(t) and not is_bare(t):
                 t = deep_copy_with(t, mapping, cl)
 
             nrb = get_notrequired_base(t)
             if nrb is not NOTHING:
                 t = nrb
 
-            if is_generic(t) and not is_bare(t) and not is_annotated(t):
+            if is_generic(t) and not is_bare(t):
                 t = deep_copy_with(t, mapping, cl)
 
             # For each attribute, we try resolving the type here and now.
@@ -414,7 +414,7 @@ def make_dict_structure_fn(
 
             if isinstance(t, TypeVar):
                 t = mapping.get(t.__name__, t)
-            elif is_generic(t) and not is_bare(t) and not is_annotated(t):
+            elif is_generic(t) and not is_bare(t):
                 t = deep_copy_with(t, mapping, cl)
 
             nrb = get_notrequired_base(t)
@@ -461,7 +461,7 @@ def make_dict_structure_fn(
 
                 if isinstance(t, TypeVar):
                     t = mapping.get(t.__name__, t)
-                elif is_generic(t) and not is_bare(t) and not is_annotated(t):
+                elif is_generic(t) and not is_bare(t):
                     t = deep_copy_with(t, mapping, cl)
 
                 if override.struct_hook is not None:
